@@ -674,6 +674,16 @@ example (ell : Ellipsoid) (prj : Projection) (hp : prj.pyid ≠ isg.pyid) :
   rw [if_neg (by norm_num), if_neg (by norm_num)]
   exact ⟨_, rfl⟩
 
+/-- **Angle-class arguments.** Every angle parameter of `psfandgridconv` is read by the source only through
+`angular_typecheck` (list regenerated by the translator from the current text), so passing an angle object of any of
+the five classes is passing its decimal-degree value: the theorems of this file, stated for numbers, cover them. -/
+theorem angle_arguments_reduced_psfandgridconv : GenR.Convert.psfandgridconv_angle_params = ["lat", "lon"] := rfl
+
+/-- **Angle-class arguments.** Every angle parameter of `geo2grid` is read by the source only through
+`angular_typecheck` (list regenerated by the translator from the current text), so passing an angle object of any of
+the five classes is passing its decimal-degree value: the theorems of this file, stated for numbers, cover them. -/
+theorem angle_arguments_reduced_geo2grid : GenR.Convert.geo2grid_angle_params = ["lat", "lon"] := rfl
+
 end GeodeVerif.C10
 
 #print axioms GeodeVerif.C10.psf_unfold
